@@ -150,6 +150,8 @@ WORDS = ["a", "Bc", "d e", "x", "yz", "&", "<", "a&b", "c<d", "-->", "e-->f", "&
          # decomposed sequences and compatibility characters: the text is written code point for code point, not normalised
          "e\u0323\u0302", "\u304b\u3099", "a\u0301b", "\u212b", "\ufa19", "\u0634\u0651\u064e"]
 WORDS_NL = ["\n", " \n ", "s\nt"]        # only under xml:space=default (collapsed by the ISD)
+# line terminators in text under xml:space=preserve (a TTML file gets them from &#10; / &#13;): they end the line
+WORDS_NL_PRESERVE = ["g\nh", "j\r\rk", "m\r\n\r\nn", "p\rq", "\n\nr", "s\n\n"]
 
 
 def _times(rng, den_choices, horizon):
@@ -209,9 +211,12 @@ def _rand_styles(rng, kind, rich):
   return st
 
 
-def _rand_text(rng, preserve):
+def _rand_text(rng, preserve, own_preserve=False):
   n = rng.choice([1, 1, 2, 3])
   pool = WORDS if preserve else WORDS + WORDS_NL
+  if own_preserve and rng.random() < 0.5:
+    # (the span that holds the text says xml:space="preserve" itself: the model does not inherit it)
+    pool = WORDS + WORDS_NL_PRESERVE
   return "".join(rng.choice(pool) for _ in range(n))
 
 
@@ -227,7 +232,7 @@ def _rand_span(rng, depth, dens, rich, timed, preserve):
   for _ in range(rng.choice([1, 1, 2, 3])):
     r = rng.random()
     if r < 0.6 or depth >= 2:
-      n["kids"].append({"k": "t", "s": _rand_text(rng, eff_preserve)})
+      n["kids"].append({"k": "t", "s": _rand_text(rng, eff_preserve, sp_ == "p")})
     elif r < 0.75:
       n["kids"].append({"k": "br"})
     else:
